@@ -145,3 +145,124 @@ func (P *Program) sourceLineAt(pos token.Pos) string {
 	p := P.Fset.Position(pos)
 	return P.sourceLine(p.Filename, p.Line)
 }
+
+// structuralFrozenObligations checks "frozen <fields> by <constructors>" declarations: over the non-test module
+// code, a field store (or a whole-object store) to a frozen field occurs only inside one of the declared
+// constructor functions (or their function literals). Stores through reflection, unsafe or decoders are not seen.
+func structuralFrozenObligations(P *Program, C *Contracts) *FuncResult {
+	res := &FuncResult{Key: "structural/frozen-fields"}
+	type decl struct {
+		tk    string
+		field string
+		ctors []string
+	}
+	var decls []decl
+	var tks []string
+	for tk := range C.Types {
+		tks = append(tks, tk)
+	}
+	sort.Strings(tks)
+	for _, tk := range tks {
+		for _, fd := range C.Types[tk].Frozen {
+			for _, f := range fd.Fields {
+				decls = append(decls, decl{tk, f, fd.Ctors})
+			}
+		}
+	}
+	if len(decls) == 0 {
+		return nil
+	}
+	var fns []*ssa.Function
+	for f := range P.allFns {
+		if !isModFn(f) || len(f.Blocks) == 0 || P.isTestFile(f.Pos()) {
+			continue
+		}
+		root := f
+		for root.Parent() != nil {
+			root = root.Parent()
+		}
+		if P.isTestFile(root.Pos()) || root.Pkg == nil || !isModulePkg(root.Pkg.Pkg) {
+			continue
+		}
+		fns = append(fns, f)
+	}
+	sort.Slice(fns, func(i, j int) bool { return funcKey(fns[i]) < funcKey(fns[j]) })
+	isCtor := func(key string, ctors []string) bool {
+		for _, c := range ctors {
+			if key == c || strings.HasPrefix(key, c+"$") {
+				return true
+			}
+		}
+		return false
+	}
+	for _, d := range decls {
+		var bad []string
+		found := false
+		for _, f := range fns {
+			key := funcKey(f)
+			for _, b := range f.Blocks {
+				for _, in := range b.Instrs {
+					st, ok := in.(*ssa.Store)
+					if !ok {
+						continue
+					}
+					hit := false
+					switch a := st.Addr.(type) {
+					case *ssa.FieldAddr:
+						pt, ok := a.X.Type().Underlying().(*types.Pointer)
+						if !ok {
+							continue
+						}
+						if typeContractKey(pt.Elem()) != d.tk {
+							continue
+						}
+						S, ok := pt.Elem().Underlying().(*types.Struct)
+						if ok && S.Field(a.Field).Name() == d.field {
+							hit = true
+						}
+					default:
+						// whole-object store  *p = T{...}
+						if pt, ok := st.Addr.Type().Underlying().(*types.Pointer); ok && typeContractKey(pt.Elem()) == d.tk {
+							if _, isAlloc := st.Addr.(*ssa.Alloc); !isAlloc {
+								hit = true
+							}
+						}
+					}
+					if !hit {
+						continue
+					}
+					found = true
+					if !isCtor(key, d.ctors) {
+						bad = append(bad, key+" at "+P.pos(in.Pos()))
+					}
+				}
+			}
+		}
+		o := &Obligation{Name: fmt.Sprintf("structural:frozen:%s.%s", d.tk, d.field), Kind: "structural", Func: d.tk, Static: true, Solver: "ssa-scan",
+			Detail: "field " + d.tk + "." + d.field + " is assigned only by " + strings.Join(dedupe(d.ctors), ", ")}
+		switch {
+		case len(bad) > 0:
+			o.Status = "unknown"
+			o.Raw = "frozen field " + d.tk + "." + d.field + " is assigned outside its constructors: " + strings.Join(bad, "; ")
+		case !found:
+			o.Status = "unknown"
+			o.Raw = "frozen field " + d.tk + "." + d.field + ": no assignment found at all (declaration does not match the code)"
+		default:
+			o.Status = "proved"
+		}
+		res.Obls = append(res.Obls, o)
+	}
+	return res
+}
+
+func dedupe(xs []string) []string {
+	seen := map[string]bool{}
+	var out []string
+	for _, x := range xs {
+		if !seen[x] {
+			seen[x] = true
+			out = append(out, x)
+		}
+	}
+	return out
+}
